@@ -264,7 +264,16 @@ pub fn check_helper<const N: usize, const K: usize, const F: usize>(raw: &[u8], 
     let sched: [u8; F] = r.arr();
     let mut bytes: [u8; N] = r.arr();
     require!(len <= N);
-    if first != 0 {
+    if first == 0xFE {
+        // read_bang_element on a comment: `!-` concrete (only the Comment scanner is explored)
+        require!(len >= 2);
+        bytes[0] = b'!';
+        bytes[1] = b'-';
+    } else if first == 0xFD {
+        require!(len >= 2);
+        bytes[0] = b'!';
+        bytes[1] = b'[';
+    } else if first != 0 {
         // read_bang_element is only called when the next byte is `!`
         require!(len >= 1);
         bytes[0] = first;
